@@ -67,11 +67,21 @@ class LogicalSolver:
                 'and': CustomAnd, 'or': CustomOr, 
             }
             with ExpressionSolver(self._eval_node, operators) as es:
-                return es.solve(expr)
+                result = es.solve(expr)
+            # a single equality comparison yields a plain (numpy) boolean
+            if isinstance(result, (bool, np.bool_)):
+                result = BooleanType(result)
+            return result
                 
 
 class CustomNot(OperatorNot):
     symbol: str = Sign.NEGATE
+
+    def operate_unary(self, tokens):
+        right = tokens.get_right()
+        if isinstance(right, (bool, np.bool_)):
+            right = BooleanType(right)
+        tokens.put_right(right.logical_not())
 
 class CustomAnd(OperatorAnd):
     
